@@ -24,12 +24,13 @@ Good == UNCHANGED <<rej, nrej>>
 Bad(w) == LET y == NoteReject(rej, nrej, l, w) IN rej' = y.rej /\ nrej' = y.nrej
 Init == l = 1 /\ rej = <<>> /\ nrej = 0 /\ RInit
 Start == /\ R.event = "Start" /\ l' = l + 1
-         /\ signer' = "none" /\ hdrDirty' = FALSE /\ payDirty' = FALSE /\ steps' = 0
+         /\ signer' = "none" /\ hdrDirty' = FALSE /\ payDirty' = FALSE /\ recDirty' = FALSE /\ sigDirty' = FALSE /\ steps' = 0
          /\ IF Matches(R.obs) THEN Good ELSE Bad("Start")
 Walk == /\ R.event = "Walk" /\ l' = l + 1
         /\ (  (R.op = "sign" /\ R.key \in Keys /\ Sign(R.key)) \/ (R.op = "clear" /\ Clear) \/ (R.op = "reparse" /\ Reparse)
            \/ (R.op = "sign_fail" /\ SignFail)
-           \/ (R.op = "tamper_header" /\ TamperHeader) \/ (R.op = "tamper_payload" /\ TamperPayload))
+           \/ (R.op = "tamper_header" /\ TamperHeader) \/ (R.op = "tamper_payload" /\ TamperPayload)
+           \/ (R.op = "tamper_rec_digest" /\ TamperRecDigest) \/ (R.op = "tamper_sig_blob" /\ TamperSigBlob))
         /\ IF Matches(R.obs) THEN Good ELSE Bad(R.op)
 Skip == R.event = "Skip" /\ l' = l + 1 /\ UNCHANGED rvars /\ Good          \* an inapplicable tamper: stuttering
 Other == R.event \notin {"Start", "Walk", "Skip"} /\ l' = l + 1 /\ UNCHANGED rvars /\ Bad(R.event)
